@@ -177,6 +177,7 @@ class SimKernel:
         self.keep_snaps = False
         self.snaps = []
         self.oracle_mode = False
+        self.static_procfs = cfg.get("procfs_flavor") == "static"
         self.pins = {}
         self.watch = ()
         self.proc_hist = []
@@ -545,6 +546,12 @@ class SimKernel:
         p.zombie = True
         p.state = "Z"
         p.exit_status = status
+        if self.static_procfs:
+            for path in [q for q in self.files
+                         if q.startswith("/proc/%d/" % pid)
+                         and not q.endswith("/psinfo")]:
+                del self.files[path]
+            self._dirs = None
         p.exit_time = self.mono
         p.fds = {}
         p.threads = {pid: p.threads.get(pid, [p.comm, 0, 0])}
@@ -568,6 +575,8 @@ class SimKernel:
             self.exit(pid, 0, reap=False)
         p.reap_time = self.mono
         del self.procs[pid]
+        if self.static_procfs:
+            self.del_file("/proc/%d" % pid)
         self.reaped = getattr(self, "reaped", {})
         self.reaped[p.inc] = p
         self.bump()
@@ -755,7 +764,7 @@ class SimKernel:
 
     def _split_proc(self, path):
         """Return (pid:int, rest:list[str]) for /proc/<n>/..., else None."""
-        if not path.startswith("/proc/"):
+        if not path.startswith("/proc/") or self.static_procfs:
             return None
         parts = path[6:].strip("/").split("/")
         if not parts or not parts[0].isdigit():
@@ -1220,7 +1229,7 @@ class SimKernel:
         return names
 
     def _listdir(self, spath, sp):
-        if spath == "/proc":
+        if spath == "/proc" and not self.static_procfs:
             names = [str(pid) for pid in self.procs]
             names += ["stat", "meminfo", "net", "cpuinfo", "self", "uptime"]
             return names
